@@ -19,6 +19,11 @@ CHECKS = {
     text="Real Shroud runs over corpus descriptions under all 12 library-level wrap_c/fortran/python/lua combinations (fortran=>c), generated libraries with random per-declaration overrides, and random assignments of the five directory options; every open-for-write is attributed to its emitter and compared with the wrap flags, the --cfiles/--ffiles contents and the designated directory; C/Fortran files are compared byte for byte across python/lua toggles.",
     note="Trusted: sys.addaudithook sees every file Python opens (cross-checked against the directory snapshot). By design bind(C) interfaces of C wrappers (c_*) and setup.py in --outdir are not counted as misplaced (DESIGN C15).",
     design="DESIGN.md §2 C15"),
+ "C16": dict(
+    technique="pairs of real Shroud runs differing only in debug/doxygen/show_splicer_comments/version stamp/per-declaration literalinclude; file sets compared, sources compared token for token after language-aware comment stripping",
+    text="For every corpus configuration and generated libraries the all-off run is compared with single-option, all-on and random combinations (all 31 in the thorough tier), the options being set at library level or on a random half of the individual declarations. Held = same files, identical comment-free token streams in C/C++/Fortran/Python/YAML outputs, and the option combination never makes Shroud fail.",
+    note="Trusted: vf/oracles/strip.py tokenisers. json/log dumps are excluded (they record the options). Library-level literalinclude/literalinclude2 are left as upstream set them in both runs (excluded by the property).",
+    design="DESIGN.md §2 C16"),
 }
 
 NOT_APPLICABLE = []
